@@ -23,7 +23,7 @@ import (
 	banktypes "github.com/cosmos/cosmos-sdk/x/bank/types"
 )
 
-func init() { props["C06"] = func(r *Rec) { runC06(r); c06Upgrade(r); c06StakeCaps(r); c06OrphanedCollectiveProposal(r); c06PropertyWalk(r); c06BlacklistedVoter(r); c06RestartWithIdleValidator(r, "C06"); recFor(r, "C06") } }
+func init() { props["C06"] = func(r *Rec) { runC06(r); c06Upgrade(r); c06StakeCaps(r); c06OrphanedCollectiveProposal(r); c06PropertyWalk(r); c06BlacklistedVoter(r); c06RestartWithIdleValidator(r, "C06"); spendFor(r, "C06"); recFor(r, "C06") } }
 
 // known halting shapes, recognised by the panic value
 func c06Classify(p interface{}) (string, string) {
